@@ -108,10 +108,15 @@ K('C12.d', property='C12', engine='symex', harness='C12/geom.cpp', entries=['k_g
 _GRIDPAIR_TUS = ['src/Variogram/Vario.cpp', 'src/Db/Db.cpp', 'src/Db/DbGrid.cpp', 'src/Basic/Grid.cpp', 'src/Variogram/DirParam.cpp',
                  'src/Space/SpaceRN.cpp', 'src/Space/ASpace.cpp', 'src/Basic/VectorHelper.cpp', 'src/Space/ASpaceObject.cpp', 'src/Space/SpacePoint.cpp', 'src/Space/SpaceTarget.cpp', 'src/Basic/AStringable.cpp',
                  'src/Basic/Utilities.cpp']
-for _nx, _ny, _np, _inc, _tiers in ((2, 2, 2, 1, ('quick',)), (3, 3, 3, 1, ('quick', 'thorough')), (3, 3, 3, 2, ('thorough',)), (4, 3, 4, 2, ('thorough',))):
-    K('C12.e.%d%d.%d.i%d' % (_nx, _ny, _np, _inc), property='C12', engine='symex', harness='C12/gridpairs.cpp', entry='k_gridpairs', tus=_GRIDPAIR_TUS,
-      defines={'all': {'VF_NX': _nx, 'VF_NY': _ny, 'VF_NPAS': _np, 'VF_INC': _inc}}, tiers=_tiers,
-      bounds={'quick': 'concrete %dx%d grid (2-D), npas = %d lags; grid increment of the direction: every non-null integer vector of [-%d,%d]^2; selection present or not with any mask; '
+def _gp_entries(inc):
+    nm = lambda v: ('m%d' % -v) if v < 0 else str(v)
+    return ['k_gp_%s_%s' % (nm(a), nm(b)) for a in range(-inc, inc + 1) for b in range(-inc, inc + 1) if (a, b) != (0, 0)]
+
+
+for _nx, _ny, _np, _inc, _tiers in ((2, 2, 2, 1, ('quick',)), (3, 2, 3, 1, ('quick', 'thorough')), (3, 3, 3, 1, ('quick', 'thorough')), (3, 3, 3, 2, ('thorough',))):
+    K('C12.e.%d%d.%d.i%d' % (_nx, _ny, _np, _inc), property='C12', engine='symex', harness='C12/gridpairs.cpp', entries=_gp_entries(_inc), tus=_GRIDPAIR_TUS,
+      defines={'all': {'VF_NX': _nx, 'VF_NY': _ny, 'VF_NPAS': _np}}, tiers=_tiers,
+      bounds={'quick': 'concrete %dx%d grid (2-D), npas = %d lags; grid increment of the direction: every non-null integer vector of [-%d,%d]^2 (one entry point each); selection present or not with any mask; '
                        'weights present or not with any undefined pattern; any keepPair answer per ordered pair; any lag size dpas >= 1' % (_nx, _ny, _np, _inc, _inc)},
       timeout_ms={'quick': 120000, 'thorough': 600000}, validate={'quick': 30, 'thorough': 60}, validate_doubles='int',
       what='Vario::_calculateOnGridSolution loop logic with the real DbGrid::rankToIndice / indiceToRank / getNDim (Grid.cpp), DirParam::getGrincr / getLagNumber / getDPas, FFFF: '
